@@ -17,7 +17,7 @@ ASSUMPTIONS = [
     "domain as C01 (ill-posed junctions discarded); float overflow above 1e100 through explosive feedback discarded",
     "per-bin amounts of ordinary links out of timed compartments are not recorded by atomica; their totals are compared with the per-bin rule instead",
 ]
-BUDGET = {"quick": 3000, "thorough": 24000}  # thorough = 8x quick: a depth that was run to completion, quiet, at seed 1 (deterministic given the seed)
+BUDGET = {"quick": 3000, "thorough": 12000}  # thorough = 4x quick: a depth that was run to completion, quiet, at seed 1 (deterministic given the seed)
 TIME_CAP = {"quick": 75, "thorough": 1500}
 PROFILE = {"extreme": 0.4, "allow_negative_functions": True, "p_function": 0.5, "p_limits": 0.15, "max_steps": 25, "p_deriv": 0.1, "p_agg_transition": 0.1, "p_programs": 0.3, "p_second_type": 0.15}
 
